@@ -99,6 +99,18 @@ func noteOnce(msg string) {
 	}
 }
 
+// forced reports whether one of the features is switched on by an explicit `supported` override.
+func (c Case) forced(features ...string) bool {
+	for _, s := range c.Supported {
+		for _, f := range features {
+			if s == f {
+				return true
+			}
+		}
+	}
+	return false
+}
+
 func hasBigInt(code string) bool {
 	toks, err := jsref.Tokenize(code, jsref.Options{})
 	if err != nil {
@@ -126,14 +138,15 @@ func judgeInner(c Case, depth int) (v vdrv.Verdict, confirmed bool) {
 }
 
 func judgeDepth(c Case, depth int, confirmed *bool) vdrv.Verdict {
-	if c.lowers("async-await", 2017) && (!c.lowers("for-await", 2018) || !c.lowers("async-generator", 2018)) {
-		// `supported: {for-await: true}` on a target without async functions describes no engine: esbuild keeps
-		// `for await` / `async function*` as told and turns the enclosing async function into a generator
+	// An explicit `supported: {F: true}` for a feature that cannot exist without another feature which the
+	// configuration lowers describes no engine, and esbuild takes the override literally: `for await` /
+	// `async function*` kept inside an async function that became a generator; `static #x = v` moved out
+	// of the class as `_A.#x = v` when public static fields are lowered. (Without the explicit override
+	// esbuild derives the dependent lowering itself, and those configurations are judged.)
+	if c.forced("for-await", "async-generator") && c.lowers("async-await", 2017) {
 		return vdrv.Skip("contradictory-supported-override")
 	}
-	if c.lowers("class-static-field", 2022) && !c.lowers("class-private-static-field", 2022) {
-		// no engine has private static fields without public ones; esbuild then moves `static #x = v` out of
-		// the class as `_A.#x = v`
+	if c.forced("class-private-static-field") && c.lowers("class-static-field", 2022) {
 		return vdrv.Skip("contradictory-supported-override")
 	}
 	ref, err := W.Script(c.Code, false)
@@ -466,9 +479,9 @@ func TestCheck(t *testing.T) {
 	H.RunReplays(t, subs)
 	H.Sub(t, "families", runFamilies)
 	H.Sub(t, "prog", runProg)
-	H.Sub(t, "cls", runGen("cls", "rapid: one class (optionally extends a base with observable receivers) with 1–5 drawn members — private fields / methods / accessors (static and instance), public and static fields, static blocks, computed keys, methods and getters — whose initialisers and bodies use this / super (call, get, set, update, optional, tagged) / new.target / private names directly, in arrows, nested arrows and async arrows; the class is evaluated in one of 23 contexts (top level, block, every loop kind incl. labelled continue, nested loops, loop head, try/finally, switch, function/method/arrow/generator/async bodies, static block of an outer class), every member is then exercised from outside on each evaluation and across evaluations (brand checks)"+ruleTail, 1500, 150000, genCls))
-	H.Sub(t, "pat", runGen("pat", "rapid: an object pattern (depth ≤3, usually with a rest element) whose computed keys (identifiers, assignments, updates, probes, symbols), default values and targets (variables, members, the key variables themselves) alias each other, over sources with getters that log or mutate the key variables, in 22 positions (var/let/const, assignment statement and expression, for-of / for-in / for-await heads in declaration and assignment form, parameters of functions, arrows, async functions, generators, methods and setters, parameter defaults, catch, nested in array patterns, for-init)"+ruleTail, 1500, 150000, genPat))
-	H.Sub(t, "loop", runGen("loop", "rapid: 1–4 nested loops (for-await over async/sync generators, hand-written iterators with observable return(), arrays of promises; for-of; for; while; do-while; for-in) with zero, one or two stacked labels and labelled blocks, bodies with awaits, yields, closures over the iteration binding (called after the loop), try/finally, switch, and conditional break / continue / return to inner and outer labels, inside async functions, arrows, methods, and async generators driven by next(value)/return()"+ruleTail, 1200, 120000, genLoop))
+	H.Sub(t, "cls", runGen("cls", "rapid: one class (optionally extends a base with observable receivers) with 1–5 drawn members — private fields / methods / accessors (static and instance), public and static fields, static blocks, computed keys, methods and getters — whose initialisers and bodies use this / super (call, get, set, update, optional, tagged) / new.target / private names directly, in arrows, nested arrows and async arrows; the class is evaluated in one of 23 contexts (top level, block, every loop kind incl. labelled continue, nested loops, loop head, try/finally, switch, function/method/arrow/generator/async bodies, static block of an outer class), every member is then exercised from outside on each evaluation and across evaluations (brand checks)"+ruleTail, 1300, 60000, genCls))
+	H.Sub(t, "pat", runGen("pat", "rapid: an object pattern (depth ≤3, usually with a rest element) whose computed keys (identifiers, assignments, updates, probes, symbols), default values and targets (variables, members, the key variables themselves) alias each other, over sources with getters that log or mutate the key variables, in 22 positions (var/let/const, assignment statement and expression, for-of / for-in / for-await heads in declaration and assignment form, parameters of functions, arrows, async functions, generators, methods and setters, parameter defaults, catch, nested in array patterns, for-init)"+ruleTail, 1200, 60000, genPat))
+	H.Sub(t, "loop", runGen("loop", "rapid: 1–4 nested loops (for-await over async/sync generators, hand-written iterators with observable return(), arrays of promises; for-of; for; while; do-while; for-in) with zero, one or two stacked labels and labelled blocks, bodies with awaits, yields, closures over the iteration binding (called after the loop), try/finally, switch, and conditional break / continue / return to inner and outer labels, inside async functions, arrows, methods, and async generators driven by next(value)/return()"+ruleTail, 1000, 50000, genLoop))
 	complete = true
 }
 
